@@ -23,6 +23,11 @@
   * `UniqueStakeKeys g ops` — the successful staking transactions of the history have pairwise distinct
                             32-byte hashes, none of them all-zero (SHA-256 / Tendermint assumption).
 
+  * `GenesisPowersOK g`, `SlashRatioSane g ops` — (only `stake_present_or_forfeited`) genesis powers are ≥ 0 and
+                            the slashing ratio in force is ≤ 100 at every point of the history; otherwise slashing
+                            produces negative powers and a delegatee whose total hits 0 while stakes remain is
+                            deleted together with them.
+
   Findings (proved below on concrete histories):
   * `genesis_stakes_collide` — all genesis stakes carry the all-zero hash and the unbonding ledger is
     keyed by hash: two genesis validators unbonding concurrently overwrite each other, one of the two
@@ -31,11 +36,14 @@
     `power * ratio / 100` rounds down to 0 (power 1 at 50 %, any power < 100 at 1 %): the stake is
     recorded nowhere afterwards and is never refunded.  Hence "recorded in exactly one place until
     refunded" holds as *at most one place* (`stake_single_location`); *at least one place* fails exactly
-    here, and `power_changes_only_by_slash` states precisely what can happen to a bonded stake.
+    here: `stake_present_or_forfeited` proves that every created stake is bonded, unbonding, refunded, or
+    was `Forfeited` (explicit ghost predicate over the history); `power_changes_only_by_slash` states
+    precisely what can happen to a bonded stake in one step.
 -/
 import RigoProofs.C11Life3
 import RigoProofs.C11Lineage
 import RigoProofs.C11Cex
+import RigoProofs.C11Present
 
 namespace Rigo.C11
 open Rigo Rigo.Delegatee
@@ -166,6 +174,34 @@ theorem power_changes_only_by_slash (g : Genesis) (hg : GenesisOK g) (ops : List
   rw [exec_snoc] at hk
   exact (step_core _ op h2).lineage (history_delegsOK hg ops h1) k d' st' hk hst
 
+/-- "each stake created by a successful staking transaction is, until refunded, recorded in exactly one
+    place" — the *at least one place* half, as a forward invariant over well-phased histories with unique
+    staking hashes, non-negative genesis powers and a slashing ratio that never exceeds 100 %: every
+    stake created so far (its key is in `usedKeys g ops`) is, in the state after `ops`,
+    bonded under some delegatee, or unbonding, or refunded (logged), or was `Forfeited`: at some BeginBlock
+    of the history the evidence named its delegatee and `slashStake slashRatio st = none`, i.e. the
+    slashed amount `power * ratio / 100` rounded to 0 and `doSlashAll` removed the stake (finding
+    `slash_forfeits_small_stake`; property C14 sanctions the slashing, not the total loss).
+    Together with `stake_single_location` (the four cases exclude each other for bonded / unbonding /
+    refunded): exactly one place, unless forfeited. -/
+theorem stake_present_or_forfeited (g : Genesis) (hg : GenesisOK g) (hgp : GenesisPowersOK g) (ops : List Op)
+    (h : History ops) (p : Phase) (hp : phaseRun .idle ops = some p) (hu : UniqueStakeKeys g ops)
+    (hs : SlashRatioSane g ops) (k : String) (hk : k ∈ usedKeys g ops) :
+    let s := exec (initChain g) ops
+    (∃ (kd : String) (d : Delegatee) (st : Stake), s.delegs.fin[kd]? = some d ∧ st ∈ d.stakes ∧ skey st = k) ∨
+    s.frozen.fin[k]? ≠ none ∨ (∃ e ∈ s.ghost.refunds, ledgerKey e.1 = k) ∨ Forfeited g ops k :=
+  present_or_forfeited hg hgp ops h p hp hu hs k hk
+
+/-- what `Forfeited` means, unfolded: the history contains a BeginBlock `h` whose atomic moves (slashing
+    per evidence entry, missed-block marks, jailing) pass through a state `c1` in which the evidence names
+    a delegatee `a` holding a stake `st` with this key whose slashed amount rounds to 0 -/
+theorem forfeited_iff (g : Genesis) (ops : List Op) (k : String) :
+    Forfeited g ops k ↔ ∃ pre h post, ops = pre ++ .begin_ h :: post ∧
+      ∃ c1 a d st, Steps (BeginAtom h) { (exec (initChain g) pre).core with height := some h.height } c1 ∧
+        a ∈ h.evidence ∧ c1.dfin[ledgerKey a]? = some d ∧ st ∈ d.stakes ∧ skey st = k ∧
+        slashStake c1.active.slashRatio st = none ∧
+        Steps (BeginAtom h) (slashedCore c1 a d) (exec (initChain g) (pre ++ [.begin_ h])).core := Iff.rfl
+
 /-! ### findings, on concrete histories -/
 
 /-- Finding (C02/C11/C12): two genesis validators unstake their genesis stake in blocks 1 and 2
@@ -210,6 +246,28 @@ theorem slash_forfeits_small_stake :
     attempt and a refund; the theorems apply to it -/
 example : GenesisOK Cex.G ∧ History Cex.lifecycle ∧ phaseRun .idle Cex.lifecycle = some .idle ∧
     UniqueStakeKeys Cex.G Cex.lifecycle := by decide +kernel
+
+example : GenesisPowersOK Cex.G ∧ SlashRatioSane Cex.G Cex.lifecycle ∧ SlashRatioSane Cex.G Cex.forfeit := by
+  decide +kernel
+
+/-- in the forfeiture history the created stake `H1` is indeed in none of the first three places, so
+    `stake_present_or_forfeited` yields `Forfeited` for it -/
+example : Forfeited Cex.G Cex.forfeit Cex.H1 := by
+  have h := stake_present_or_forfeited Cex.G (by decide +kernel) (by decide +kernel) Cex.forfeit (by decide +kernel)
+    .idle (by decide +kernel) (by decide +kernel) (by decide +kernel) Cex.H1 (by decide +kernel)
+  have e : (exec (initChain Cex.G) Cex.forfeit).delegs.fin.toList.all
+      (fun x => x.2.stakes.all (fun st => skey st != Cex.H1)) = true ∧
+      (exec (initChain Cex.G) Cex.forfeit).frozen.fin[Cex.H1]? = none ∧
+      (exec (initChain Cex.G) Cex.forfeit).ghost.refunds = [] := by decide +kernel
+  rcases h with ⟨kd, d, st, h1, h2, h3⟩ | h | ⟨e1, h1, _⟩ | h
+  · exfalso
+    have hm := Std.ExtTreeMap.mem_toList_iff_getElem?_eq_some.mpr h1
+    have := List.all_eq_true.mp e.1 (kd, d) hm
+    have := List.all_eq_true.mp this st h2
+    simp [h3] at this
+  · exact absurd e.2.1 h
+  · rw [e.2.2] at h1; cases h1
+  · exact h
 
 example := deleg_ok Cex.G (by decide +kernel) Cex.lifecycle (by decide +kernel)
 example := stake_single_location Cex.G (by decide +kernel) Cex.lifecycle (by decide +kernel) .idle
